@@ -39,9 +39,12 @@ func init() {
 
 // Decode reverses the encode operation on a byte slice input
 func decode(buf []byte, out any) error {
-	r := bytes.NewReader(buf)
+	// Decode straight from the byte slice: the reader based decoder allocates
+	// whatever length a str/bin/ext header declares before it discovers that
+	// the input is shorter (a 40 byte packet can ask for several GiB), the
+	// slice based one checks the declared length against the buffer first.
 	hd := codec.MsgpackHandle{}
-	dec := codec.NewDecoder(r, &hd)
+	dec := codec.NewDecoderBytes(buf, &hd)
 	return dec.Decode(out)
 }
 
